@@ -70,7 +70,7 @@ def corruption_check(ctx, module, cfg, trace_path, mutate, name, limit=400):
         raise InfraError("corruption check: nothing to corrupt in %s" % trace_path)
     p = os.path.join(ctx.subdir("corrupt_" + name), "bad.ndjson")
     common.write_ndjson(p, rows)
-    tv = tlc.validate_trace(ctx, module, cfg, p, timeout=600, name="corrupt_" + name)
+    tv = tlc.validate_trace(ctx, module, cfg, p, timeout=1200, name="corrupt_" + name)
     if tv["accepted"]:
         raise InfraError("binding self-check failed: corrupted trace (%s) was accepted by %s" % (what, module))
     return {"corrupted": what, "rejected_at_line": tv["stuck_line"], "by": tv["invariant"] or "step"}
